@@ -106,6 +106,12 @@ def gen_theta(r: random.Random, mode: str, eps: float) -> float:
         return 10 ** r.uniform(-3, 0)
     if mode == "large":
         return r.choice([1.0, 2.0, 3.0, math.pi - 1e-3, math.pi + 1e-3, 4.0, 2 * math.pi - 1e-3, 7.0, r.uniform(0.5, 7.0)])
+    if mode in ("pi", "pi_exact"):   # spacing around the thresholds of SO3 Log (|w| ~ 0 at pi, |v| ~ 0 at 2 pi)
+        base = r.choice([math.pi, math.pi, 2 * math.pi, 3 * math.pi])
+        ds = [1e-3, 1e-4] if eps > 1e-10 else [1e-6, 1e-9, 1e-12]
+        if mode == "pi_exact":
+            ds = ds + [0.0, 0.0]
+        return base * (1 + r.choice([-1, 1]) * r.choice(ds))
     if mode == "huge":      # many turns per step: valid input ("arbitrary gyro")
         return r.choice([20.0, 50.0, 100.0, r.uniform(10.0, 100.0)])
     return gen_theta(r, r.choice(["zero", "taylor", "small", "moderate", "moderate", "large"]), eps)   # mix
@@ -141,6 +147,8 @@ def build_data(case) -> dict:
     items = case.get("item_modes")          # mixed-regime batch: one (gyro_mode, acc_mode) per item
     for b in range(B):
         gm, amode = (items[b % len(items)] if items else (case["gyro_mode"], case["acc_mode"]))
+        if gm == "pi" and case["cov_mode"] in ("default", "float") and not any(case["call_cov"]):
+            gm = "pi_exact"     # isotropic gyro covariance: J C J^T does not depend on the sign Log picks at exactly pi
         for f in range(F):
             m = case["dt_mode"]
             if m == "const":
@@ -193,6 +201,14 @@ def build_data(case) -> dict:
         g_, a_ = 10 ** rc.uniform(-8, -4), 10 ** rc.uniform(-5, -2)
         D["mg"] = [f32(g_ * rc.uniform(1, 10)) for _ in range(3)]
         D["ma"] = [f32(a_ * rc.uniform(1, 10)) for _ in range(3)]
+        if cm == "gfloat_avec":      # exactly one of the two given as a float, the other as a 3-vector
+            D["mg"] = [D["mg"][0]] * 3
+        elif cm == "gvec_afloat":
+            D["ma"] = [D["ma"][0]] * 3
+        elif cm == "gonly":          # only gyro_cov given, acc_cov left at its default
+            D["ma"] = [f32((8e-2) ** 2)] * 3
+        elif cm == "aonly":
+            D["mg"] = [f32((3.2e-3) ** 2)] * 3
     # explicit init_state material, one per call
     D["xi"] = []
     for ci, kind in enumerate(case["explicit_init"]):
@@ -229,20 +245,39 @@ def item_data(case, D, b):
     return c, Db
 
 
-def make_module(case, D):
+def make_module(case, D, keep=None):
+    """the integrator of a case; `keep` collects the tensors handed to the constructor (the caller still owns them)"""
     P = pp()
     dtype = tdt(case["dtype"])
-    kw = dict(gravity=case["gravity"], reset=case["reset"], prop_cov=case["prop_cov"])
-    if case["cov_mode"] == "float":
+    g = case["gravity"]
+    if case.get("gravity_int"):
+        g = int(g)
+    kw = dict(gravity=g, reset=case["reset"], prop_cov=case["prop_cov"])
+    cm = case["cov_mode"]
+    if cm == "float":
         kw.update(gyro_cov=D["mg"][0], acc_cov=D["ma"][0])
-    elif case["cov_mode"] == "vec":
+    elif cm == "vec":
         kw.update(gyro_cov=torch.tensor(D["mg"]), acc_cov=torch.tensor(D["ma"]))
+    elif cm == "gfloat_avec":
+        kw.update(gyro_cov=D["mg"][0], acc_cov=torch.tensor(D["ma"]))
+    elif cm == "gvec_afloat":
+        kw.update(gyro_cov=torch.tensor(D["mg"]), acc_cov=D["ma"][0])
+    elif cm == "gonly":
+        kw.update(gyro_cov=torch.tensor(D["mg"]))
+    elif cm == "aonly":
+        kw.update(acc_cov=D["ma"][0])
     im = case["init_mode"]
     if im == "shared":
         kw.update(pos=D["p0"][0].clone(), rot=P.SO3(D["R0"][0].clone()), vel=D["v0"][0].clone())
     elif im == "per_item":
         kw.update(pos=D["p0"][:, None].clone(), rot=P.SO3(D["R0"][:, None].clone()), vel=D["v0"][:, None].clone())
-    return P.module.IMUPreintegrator(**kw).to(dtype)
+    if keep is not None:
+        keep += [v for v in kw.values() if isinstance(v, torch.Tensor)]
+    if case.get("ctor_positional") and im != "default":
+        m = P.module.IMUPreintegrator(kw.pop("pos"), kw.pop("rot"), kw.pop("vel"), kw.pop("gravity"), **kw)
+    else:
+        m = P.module.IMUPreintegrator(**kw)
+    return m.to(dtype)
 
 
 SENTINEL = 7.25
@@ -302,12 +337,19 @@ def call_args(case, D, ci, s, e, rank=None, bufs=None):
     kw = {}
     if case["known_rot"][ci]:
         kw["rot"] = P.SO3(lay_out(cut(D["rot"]), layout, "rot", bufs, guards))
-    if case["call_cov"][ci]:
+    cc = case["call_cov"][ci]           # False | True (both) | "g" | "a" (exactly one) | "b1" (both, shape (B,1,3))
+    if cc in (True, "g"):
         kw["gyro_cov"] = lay_out(D["gcov"][:, s:e], layout, "gcov", bufs, guards)
+    if cc in (True, "a"):
         kw["acc_cov"] = lay_out(D["acov"][:, s:e], layout, "acov", bufs, guards)
+    if cc == "b1":
+        kw["gyro_cov"] = lay_out(D["gcov"][:, s:s + 1], "contig", "gcov", None, guards)
+        kw["acc_cov"] = lay_out(D["acov"][:, s:s + 1], "contig", "acov", None, guards)
     xi = D["xi"][ci]
     if xi is not None:
         st = {"pos": xi["pos"][:, None].clone(), "vel": xi["vel"][:, None].clone(), "rot": P.SO3(xi["rot"][:, None].clone())}
+        if case["B"] == 1 and case.get("init_flat"):      # documented for one item: plain (3,), (4,) tensors
+            st = {"pos": xi["pos"][0].clone(), "vel": xi["vel"][0].clone(), "rot": P.SO3(xi["rot"][0].clone())}
         if "cov" in xi:
             st["cov"] = xi["cov"].clone()
         if "Rij" in xi:
@@ -364,19 +406,165 @@ def record(o):
                       tuple(o["pos"].shape), None if o.get("cov") is None else tuple(o["cov"].shape))}
 
 
-def run_impl(case, D, chunks=None, rank=None, disturb=False):
+class Inconclusive(Exception):
+    """a request that must raise did not raise: nothing can be concluded from this case (counted, skipped)"""
+
+
+ERR_KINDS_COV = ["gcov_float", "acov_float", "cov_dtype", "cov_shape", "cov_last2", "init_cov_shape", "init_rij_plain"]
+ERR_KINDS_ANY = ["rank", "acc_len", "init_missing"]
+
+
+def corrupt(kind, case, args, kw):
+    """turn a legal call into one that must raise (each kind is checked to raise on the unchanged tree);
+    the late kinds raise inside / after the covariance stage, when integrate() and predict() have already run"""
+    P = pp()
+    dtype = tdt(case["dtype"])
+    other = torch.float32 if dtype == torch.float64 else torch.float64
+    B = case["B"]
+    n = args[0].shape[-2] if args[0].dim() >= 2 else 1
+    kw = dict(kw)
+    args = list(args)
+    zero_init = {"pos": torch.zeros(3, dtype=dtype), "rot": P.identity_SO3(dtype=dtype), "vel": torch.zeros(3, dtype=dtype)}
+    if kind == "gcov_float":
+        kw["gyro_cov"] = 1e-4
+    elif kind == "acov_float":
+        kw["acc_cov"] = 1e-4
+    elif kind == "cov_dtype":
+        kw["gyro_cov"] = torch.full((B, n, 3), 1e-4, dtype=other)
+    elif kind == "cov_shape":
+        kw["acc_cov"] = torch.full((B, n + 1, 3), 1e-4, dtype=dtype)
+    elif kind == "cov_last2":
+        kw["gyro_cov"] = torch.full((B, n, 2), 1e-4, dtype=dtype)
+    elif kind == "init_cov_shape":
+        kw["init_state"] = {**zero_init, "cov": torch.zeros(B, 8, 8, dtype=dtype)}
+    elif kind == "init_rij_plain":
+        kw["init_state"] = {**zero_init, "Rij": torch.tensor([0.0, 0.0, 0.0, 1.0], dtype=dtype)}
+    elif kind == "rank":
+        args[1] = args[1][0]
+    elif kind == "acc_len":
+        a = args[2]
+        args[2] = torch.cat([a, a[..., -1:, :]], dim=-2) if a.dim() >= 2 else torch.stack([a, a])
+        if a.dim() < 2:
+            args[1] = args[1]          # ranks now differ: assertion
+    elif kind == "init_missing":
+        kw["init_state"] = {"pos": zero_init["pos"], "rot": zero_init["rot"]}
+    else:
+        raise ValueError(kind)
+    return args, kw
+
+
+def storage_span(t):
+    st = raw_storage(t).untyped_storage()
+    return st.data_ptr(), st.data_ptr() + st.nbytes()
+
+
+def overlaps(a, b):
+    (a0, a1), (b0, b1) = storage_span(a), storage_span(b)
+    return a0 < b1 and b0 < a1 and a1 > a0 and b1 > b0
+
+
+def check_owns(m, o, guards, where):
+    """(15) results own their memory: no internal overlap, no storage shared between the returned tensors, with an
+    argument, or with the module's buffers"""
+    outs = {k: o[k] for k in ("rot", "vel", "pos", "cov") if o.get(k) is not None}
+    for k, t in outs.items():
+        r = raw_storage(t)
+        if any(st == 0 and sz > 1 for st, sz in zip(r.stride(), r.shape)) or not r.is_contiguous() and r.numel() > r.untyped_storage().nbytes() // r.element_size():
+            raise Misbehaviour(f"owns: returned '{k}' overlaps itself (stride 0 / expanded) {where}")
+    keys = list(outs)
+    for i, a in enumerate(keys):
+        for b in keys[i + 1:]:
+            if overlaps(outs[a], outs[b]):
+                raise Misbehaviour(f"owns: returned '{a}' and '{b}' share storage {where}")
+    for k, t in outs.items():
+        for g in guards:
+            if overlaps(t, g):
+                raise Misbehaviour(f"owns: returned '{k}' shares storage with an argument of the call {where}")
+        for bn in ("pos", "rot", "vel", "cov", "Rij", "gravity", "gyro_cov", "acc_cov"):
+            buf = getattr(m, bn, None)
+            if buf is not None and overlaps(t, buf):
+                raise Misbehaviour(f"owns: returned '{k}' shares storage with the module buffer '{bn}' {where}")
+
+
+def module_keys(m):
+    return (tuple(sorted(m._buffers.keys())), tuple(sorted(k for k in m.__dict__.keys())))
+
+
+def grad_context(mode):
+    import contextlib
+    if mode == "no_grad":
+        return torch.no_grad()
+    if mode == "inference":
+        return torch.inference_mode()
+    return contextlib.nullcontext()
+
+
+def do_call(m, case, args, kw, grad_mode=None):
+    if grad_mode == "requires_grad":
+        P = pp()
+        args = [a.clone().requires_grad_() for a in args]
+        kw = dict(kw)
+        if kw.get("rot") is not None:
+            kw["rot"] = P.SO3(raw_storage(kw["rot"]).clone().requires_grad_())
+    if case.get("positional"):
+        args = list(args) + [kw.get("rot"), kw.get("gyro_cov"), kw.get("acc_cov"), kw.get("init_state")]
+        kw = {}
+    with grad_context(grad_mode):
+        return m(*args, **kw)
+
+
+def failing_call(m, case, D, ci, s, n, rank, kind):
+    """(11) a request that raises between successful calls: the object must be exactly as before"""
+    nc = len(case["chunks"])
+    cj = min(ci, nc - 1)
+    if ci >= nc:
+        s = s - n
+    args, kw, _ = call_args(case, D, cj, s, s + n, rank)
+    args, kw = corrupt(kind, case, args, kw)
+    before, keys0 = module_attrs(m), module_keys(m)
+    try:
+        do_call(m, case, args, kw)
+    except Exception:
+        after = module_attrs(m)
+        for k in before:
+            x, y = before[k], after[k]
+            if (x is None) != (y is None) or (x is not None and (x.shape != y.shape or x.dtype != y.dtype or not torch.equal(x, y))):
+                raise Misbehaviour(f"atomic: a call that raised ({kind}, before call {ci} of chunks {case['chunks'][:12]}) changed the "
+                                   f"carried '{k}': the failed chunk is counted although the caller never got a result")
+        if module_keys(m) != keys0:
+            raise Misbehaviour(f"atomic: a call that raised ({kind}) left new attributes / buffers on the object")
+        return
+    raise Inconclusive(kind)
+
+
+def run_impl(case, D, chunks=None, rank=None, disturb=False, grad_mode=None, hook=None):
     """the real module fed the chunks; returns list of per-call dicts of float64 tensors (+ raw for bit checks).
-    disturb=True: after every call the caller overwrites, in place, every tensor it passed in and every tensor it
-    got back (a caller re-using its buffers / post-processing the result) — later calls must not notice."""
+    disturb=True: after every call the caller overwrites, in place, every tensor it passed in (constructor included) and
+    every tensor it got back — later calls must not notice.  case['fail_at'] = {call index: kind}: a request that raises
+    is made before that call (index = number of calls: after the last one).  hook(m, ci) runs before call ci."""
+    own = chunks is None
     chunks = case["chunks"] if chunks is None else chunks
-    m = make_module(case, D)
+    ctor = []
+    m = make_module(case, D, keep=ctor)
+    for bn in ("pos", "rot", "vel"):
+        for t in ctor:
+            if overlaps(getattr(m, bn), t):
+                raise Misbehaviour(f"owns: the module buffer '{bn}' shares storage with a constructor argument")
+    if disturb:
+        for t in ctor:
+            raw_storage(t).fill_(-77.0)
+    fail_at = {int(k): v for k, v in (case.get("fail_at") or {}).items()} if own else {}
     outs, s = [], 0
     prev_raw = []
     for ci, n in enumerate(chunks):
+        if hook is not None:
+            hook(m, ci)
+        if ci in fail_at:
+            failing_call(m, case, D, ci, s, n, rank, fail_at[ci])
         args, kw, guards = call_args(case, D, ci if len(chunks) == len(case["chunks"]) else 0, s, s + n, rank)
         snap = [plain(x) for x in guards]
         before = module_attrs(m)
-        o = m(*args, **kw)
+        o = do_call(m, case, args, kw, grad_mode)
         if not isinstance(o, dict) or any(k not in o for k in ("rot", "vel", "pos")):
             raise Misbehaviour("types: forward did not return a dict with rot / vel / pos")
         for a, b in zip(guards, snap):
@@ -387,6 +575,7 @@ def run_impl(case, D, chunks=None, rank=None, disturb=False):
                 if not torch.equal(plain(po[key]), ps[key]):
                     raise Misbehaviour(f"purity: a later call modified the previously returned '{key}'")
         check_attrs(m, before, o, case["reset"], case["prop_cov"])
+        check_owns(m, o, guards, f"(call {ci})")
         rec = record(o)
         outs.append(rec)
         if disturb:
@@ -402,6 +591,10 @@ def run_impl(case, D, chunks=None, rank=None, disturb=False):
         else:
             prev_raw.append((o, {key: plain(o[key]) for key in ("rot", "vel", "pos")}))
         s += n
+    if len(chunks) in fail_at:
+        failing_call(m, case, D, len(chunks), s, chunks[-1], rank, fail_at[len(chunks)])
+        # the state must still be the last frame of the last successful call
+        check_attrs(m, module_attrs(m), outs[-1]["raw"], case["reset"], case["prop_cov"]) if not disturb and not case["reset"] else None
     return outs
 
 
@@ -440,10 +633,10 @@ def model_line(case, D, b, mode, left):
             toks += [wl(D["dt"][b, f]), wl(D["gyro"][b, f]), wl(D["acc"][b, f])]
             if known:
                 toks.append(wl(D["rot"][b, f]))
-            if case["call_cov"][ci]:
-                toks += [wl(D["gcov"][b, f]), wl(D["acov"][b, f])]
-            else:
-                toks += [mg, ma]
+            cc = case["call_cov"][ci]
+            fg = s if cc == "b1" else f
+            toks.append(wl(D["gcov"][b, fg]) if cc in (True, "g", "b1") else mg)
+            toks.append(wl(D["acov"][b, fg]) if cc in (True, "a", "b1") else ma)
         s += n
     return " ".join(toks)
 
